@@ -133,6 +133,12 @@ func (fc *fnCtx) specEnv(st *State, extra map[string]Val) *SpecEnv {
 					hasMatch = true
 				}
 			}
+			// ... or a captured variable of the enclosing function (read through its capture pointer)
+			for _, fv := range fc.fn.FreeVars {
+				if fv.Name() == a.Comment && fv.Pos() == lp {
+					hasMatch = true
+				}
+			}
 			if hasMatch {
 				continue
 			}
